@@ -334,7 +334,9 @@ static void run_c08(long i, vh_rng *r)
     if (rc != 0) vh_viol("target_failed_after_history", "the target utterance failed (rc %d) on the long-lived decoder but succeeded on a fresh one", rc);
     else {
         char pcls[120]; pattern_class(&t.p, pcls, sizeof(pcls));
-        { int eq = record_equal(&fresh, &after, 1, why, sizeof(why)); int synthetic = strncmp(t.a.desc, "recording", 9) != 0;
+        /* the normalisation state left behind is compared too, except after an utterance without a single frame: it has nothing to
+         * estimate from, so whatever was there before stays (the results themselves are still compared) */
+        { int eq = record_equal(&fresh, &after, fresh.frames_searched > 0, why, sizeof(why)); int synthetic = strncmp(t.a.desc, "recording", 9) != 0;
           if (eq == -1 && synthetic) vh_viol("lattice_differs_after_history|synthetic_signal", "fresh decoder vs after %d earlier utterances, audio %s: %s", nh, t.a.desc, why);
           else if (eq != 1) vh_viol(vh_path("differs_after_history|%s|cmn_%s", pcls, t.cfg.cmn), "fresh decoder vs after %d earlier utterances: %s", nh, why); }
         /* (c) once more, straight away */
